@@ -646,7 +646,7 @@ impl FunctionCompiler<'_> {
     }
 
     /// Compiles the defers of every block between here and the block (or loop) `label`,
-    /// innermost block first. The defers of `label` itself are not compiled here.
+    /// innermost block first, and then the defers `label` itself has registered so far.
     fn run_defers_to_label(&mut self, label: hir::ScopeId) {
         // run all the defers from here, backwards to the one we are breaking out of
 
@@ -654,16 +654,6 @@ impl FunctionCompiler<'_> {
 
         // todo: don't do popping
         while let Some(frame) = self.defer_stack.last().cloned() {
-            // the exit block of every Expr::Block contains the instructions for running
-            // the defers. This break instruction jumps to that exit block.
-            // therefore, we only need to insert extra defer handling for everything OTHER
-            // than the block we are breaking to.
-            if let Some(id) = frame.id {
-                if id == label {
-                    break;
-                }
-            }
-
             // do it in reverse to make sure later defers can still rely on the allocations of
             // previous defers
             for defer in frame.defers.iter().rev() {
@@ -671,6 +661,13 @@ impl FunctionCompiler<'_> {
             }
 
             used_frames.push(self.defer_stack.pop().unwrap());
+
+            // the block we are leaving is the last one whose defers run. only the defers it
+            // has reached so far were just compiled: its exit block doesn't run any (a defer
+            // further down the block was never reached on this path)
+            if frame.id == Some(label) {
+                break;
+            }
         }
 
         self.defer_stack.extend(used_frames.into_iter().rev());
@@ -1411,6 +1408,20 @@ impl FunctionCompiler<'_> {
                     })
                     .flatten();
 
+                // unwind our defers. this is the path that falls off the end of the block; every
+                // `break` out of the block has already run the defers it had reached
+
+                let defer_frame = self.defer_stack.pop().expect("we just pushed this");
+                debug_assert_eq!(defer_frame.id, scope_id);
+
+                if !no_eval {
+                    // do it in reverse to make sure later defers can still rely on the allocations of
+                    // previous defers
+                    for defer in defer_frame.defers.iter().rev() {
+                        self.compile_expr(*defer);
+                    }
+                }
+
                 if !no_eval {
                     if let Some(value) = value {
                         self.builder
@@ -1480,20 +1491,6 @@ impl FunctionCompiler<'_> {
 
                 self.builder.switch_to_block(exit_block);
                 self.builder.seal_block(exit_block);
-
-                // unwind our defers
-
-                let defer_frame = self.defer_stack.pop().expect("we just pushed this");
-
-                if !no_eval || scope_id.is_some() {
-                    debug_assert_eq!(defer_frame.id, scope_id);
-
-                    // do it in reverse to make sure later defers can still rely on the allocations of
-                    // previous defers
-                    for defer in defer_frame.defers.iter().rev() {
-                        self.compile_expr(*defer);
-                    }
-                }
 
                 if final_ty.into_real_type().is_some() {
                     Some(self.builder.block_params(exit_block)[0])
